@@ -167,3 +167,30 @@ Proof.
     + split; [discriminate|reflexivity].
     + discriminate.
 Qed.
+
+(* ---------- the code before the repairs violated the statement ---------- *)
+
+Theorem pinned_drops_ordered_form :
+  exists cf ord b,
+    form_plan_of_pinned [] cf ord = FBody b /\
+    values_of (bs "z") (pair_up ord) = [bs "1"] /\
+    values_of (bs "z") (parse_form b) = [] /\
+    (* the repaired code carries it *)
+    exists b', form_plan_of [] cf ord = FBody b' /\ values_of (bs "z") (parse_form b') = [bs "1"].
+Proof.
+  exists [(bs "b", [bs "x"])], [bs "z"; bs "1"], (bs "b=x").
+  repeat split; try (vm_compute; reflexivity).
+  exists (bs "z=1&b=x"). split; vm_compute; reflexivity.
+Qed.
+
+Theorem pinned_drops_client_form_in_multipart :
+  exists q, q_multipart q = true /\ lookup (bs "b") (q_cform q) = [bs "x"] /\
+    values_of (bs "b") (multipart_fields_pinned q) = [] /\
+    values_of (bs "b") (multipart_fields q) = [bs "x"].
+Proof.
+  exists {| q_method := bs "POST"; q_allow_get := false; q_multipart := true; q_rform := [];
+            q_cform := [(bs "b", [bs "x"])]; q_ordered := []; q_key_order := [bs "b"]; q_files := [];
+            q_file_fail := false; q_custom_boundary := []; q_random_boundary := bs "r";
+            q_marshal := false; q_raw := None; q_rct := []; q_cct := [] |}.
+  repeat split; vm_compute; reflexivity.
+Qed.
